@@ -25,12 +25,24 @@ def paxRecord (k v : Bytes) : Bytes :=
 
 def paxBody (recs : List (Bytes × Bytes)) : Bytes := recs.flatMap (fun r => paxRecord r.1 r.2)
 
-/-- path.Join(dir, "PaxHeaders.0", file) for dir, file := path.Split(name); then writeRawFile's cut and trim -/
+/-- toASCII: bytes of non-ASCII runes are dropped -/
+def asciiOnly (s : Bytes) : Bytes := s.filter (· < 128)
+
+/-- path.Join(dir, "PaxHeaders.0", file) for dir, file := path.Split(name); then writeRawFile's toASCII, cut and trim -/
 def xName (name : Bytes) : Bytes :=
   let d := Path.uptoLastSlash name
   let f := name.drop d.length
   let parts := [d, b!"PaxHeaders.0", f].filter (· ≠ [])
-  trimRight slash ((Path.clean (joinWith slash parts)).take 100)
+  trimRight slash ((asciiOnly (Path.clean (joinWith slash parts))).take 100)
+
+def lookupB (k : Bytes) : List (Bytes × Bytes) → Option Bytes
+  | [] => none
+  | (k', v) :: rest => if k' = k then some v else lookupB k rest
+
+/-- what the main header carries in a field whose full value went into a record (writePAXHeader formats the block
+    ignoring errors: the value made ASCII, cut at the field width; the cut-at-a-slash refinement of formatString is
+    outside the model – the theorems guard it, the harness counts such members as skipped) -/
+def cutTo (w : Nat) (s : Bytes) : Bytes := (asciiOnly s).take w
 
 /-- the header of the extension member -/
 def xHdr (name : Bytes) (size : Nat) : Hdr :=
@@ -43,9 +55,16 @@ structure PMember where
   body : Bytes
 deriving DecidableEq, Repr
 
+/-- the header block of the ordinary member: name / link name replaced by their cut ASCII form when the full value
+    travels in a `path` / `linkpath` record (names over 100 bytes that USTAR cannot split, non-ASCII names) -/
+def mainHdr (m : PMember) : Hdr :=
+  { m.hdr with
+    name := if (lookupB (b!"path") m.pax).isSome then cutTo 100 m.hdr.name else m.hdr.name,
+    linkname := if (lookupB (b!"linkpath") m.pax).isSome then cutTo 100 m.hdr.linkname else m.hdr.linkname }
+
 def expand (m : PMember) : List Member :=
   if m.pax = [] then [{ hdr := m.hdr, body := m.body }]
-  else [{ hdr := xHdr m.hdr.name (paxBody m.pax).length, body := paxBody m.pax }, { hdr := m.hdr, body := m.body }]
+  else [{ hdr := xHdr m.hdr.name (paxBody m.pax).length, body := paxBody m.pax }, { hdr := mainHdr m, body := m.body }]
 
 def paxArchive (ms : List PMember) : Bytes := archive (ms.flatMap expand)
 
@@ -83,7 +102,11 @@ def collapse : List Member → Option (List PMember)
       if m2.hdr.typeflag = 120 then none
       else match parseRecords (m.body.length + 1) m.body with
         | none => none
-        | some recs => (collapse rest).map ({ hdr := m2.hdr, pax := recs, body := m2.body } :: ·)
+        | some recs =>
+          -- mergePAX: `path` and `linkpath` records replace the header's name and link name
+          (collapse rest).map ({ hdr := { m2.hdr with name := (lookupB (b!"path") recs).getD m2.hdr.name,
+                                                       linkname := (lookupB (b!"linkpath") recs).getD m2.hdr.linkname },
+                                 pax := recs, body := m2.body } :: ·)
     else (collapse (m2 :: rest)).map ({ hdr := m.hdr, body := m.body } :: ·)
 
 def paxRead (s : Bytes) : Option (List PMember) := (read s).bind collapse
